@@ -230,6 +230,15 @@ func init() {
 			m.inconclusive("sliceOff of concrete slice")
 			return nil
 		},
+		"blockedThreads": func(m *Machine, c *frame, f *ssa.Function, a []Value) Value {
+			n := 0
+			for _, t := range m.threads {
+				if t != m.cur && !t.done && t.started && !m.runnable(t) {
+					n++
+				}
+			}
+			return m.tt.Const(64, uint64(n))
+		},
 		"blockForever": func(m *Machine, c *frame, f *ssa.Function, a []Value) Value {
 			m.block("blockForever", 0, func() bool { return false })
 			return nil
